@@ -81,7 +81,7 @@ ASSUMPTIONS = [
     "the scripted stream implements next_int as lo + floor((hi-lo+1)*u) like MersenneTwister",
 ]
 NONTRIVIAL_FLOOR = 0.05
-EXHAUSTIVE_NOTE = ("every class x boundary parameter sets x 17 extreme uniforms x 4 positions; every "
+EXHAUSTIVE_NOTE = ("every class x boundary parameter sets x 21 extreme uniforms x 4 positions; every "
                    "(class, parameter, invalid alternative); every QuantityDist subclass x unit; "
                    "re-pointing after 1..3 draws and alternating interleaving per class")
 LEVEL_TEXT = "exploration"
@@ -127,7 +127,8 @@ NONNEG = ("DistErlang", "DistExponential", "DistGamma", "DistWeibull", "DistPear
 TWO53 = 2.0 ** 53
 MIN_NORMAL = 2.0 ** -1022
 EXTREMES = [0.0, 5e-324, 1.5e-323, MIN_NORMAL, 1e-300, 1e-200, 1e-17, 2.0 ** -53, 2.0 ** -52, 0.25,
-            0.5 - 2.0 ** -54, 0.5, 0.5 + 2.0 ** -53, 0.75, 1.0 - 2.0 ** -52, 1.0 - 2.0 ** -53, 0.6321205588285577]
+            0.5 - 2.0 ** -54, 0.5, 0.5 + 2.0 ** -53, 0.75, 1.0 - 2.0 ** -52, 1.0 - 2.0 ** -53, 0.6321205588285577,
+            0.2, 0.9, 6e-17, 1e-16]        # (0.2, 0.9: no short binary fraction; 6e-17, 1e-16: no multiple of 2**-53)
 
 
 def _hx(x):
@@ -1007,7 +1008,9 @@ ENUM_PARAMS = {
     "DistUniform": [{"lo": 0.0, "hi": 1.0}, {"lo": -1000.0, "hi": 1e-3}, {"lo": 1, "hi": 3},
                     # valid intervals that are narrow compared with the magnitude of their bounds
                     {"lo": 1.7e9, "hi": 1.7e9 + 0.5}, {"lo": 1.0, "hi": 1.0000000001},
-                    {"lo": 1e15, "hi": 1e15 + 1.0}, {"lo": 3.0, "hi": math.nextafter(3.0, 4.0)}],
+                    {"lo": 1e15, "hi": 1e15 + 1.0}, {"lo": 3.0, "hi": math.nextafter(3.0, 4.0)},
+                    {"lo": -29.0, "hi": math.nextafter(-29.0, 0.0)}, {"lo": 83.7, "hi": 84.2},
+                    {"lo": -1e308, "hi": 1e308}],
     "DistWeibull": [{"alpha": 1.0, "beta": 1.0}, {"alpha": 0.5, "beta": 2.0}, {"alpha": 3, "beta": 1e-3}],
 }
 
